@@ -867,10 +867,31 @@ fn gen_c12(tier: &str, rng: &mut Rng) -> Vec<Case> {
         let src = gnr.pre_text();
         let wrapk = gnr.rng.below(6);
         let deco = *gnr.rng.pick(&[1u8, 2]);
+        // optionally put inline elements into the block (also right after a newline) and <br>
+        let src_html: String = if gnr.rng.chance(1, 2) {
+            let cs: Vec<char> = src.chars().collect();
+            let mut o = String::new();
+            let mut i = 0;
+            while i < cs.len() {
+                let step = gnr.rng.range(1, 9).min(cs.len() - i);
+                let seg: String = cs[i..i + step].iter().collect();
+                if gnr.rng.chance(1, 3) {
+                    let name = *gnr.rng.pick(&["b", "em", "span", "code", "strong"]);
+                    o.push_str(&format!("<{}>{}</{}>", name, seg, name));
+                } else {
+                    o.push_str(&seg);
+                }
+                i += step;
+            }
+            o
+        } else {
+            src.clone()
+        };
+        let src = src; // the text content is unchanged
         let (html, prefix): (String, usize) = match wrapk {
-            0 => (format!("<ul><li><pre>{}</pre></li></ul>", src), 2),
-            1 => (format!("<blockquote><pre>{}</pre></blockquote>", src), 2),
-            _ => (format!("<pre>{}</pre>", src), 0),
+            0 => (format!("<ul><li><pre>{}</pre></li></ul>", src_html), 2),
+            1 => (format!("<blockquote><pre>{}</pre></blockquote>", src_html), 2),
+            _ => (format!("<pre>{}</pre>", src_html), 0),
         };
         let w = rng.range(1, 60);
         let cfg = Cfg { deco, ..Default::default() };
@@ -890,7 +911,9 @@ fn check_c12(cases: &[Case], results: &[Option<RunResult>]) -> Vec<Violation> {
         if c.meta.role() != "pre" {
             continue;
         }
-        let src = &c.meta.strs()[0];
+        // the HTML parser drops a newline that immediately follows <pre>
+        let src0 = &c.meta.strs()[0];
+        let src: &str = src0.strip_prefix('\n').unwrap_or(src0);
         let prefix = c.meta.nums()[0] as usize;
         let got = match out_lines(&r.outcome) {
             Some(l) => l,
